@@ -209,6 +209,33 @@ pub fn build(max_queue: usize, buf_cap: usize, string_ids: bool, timeout: Durati
 pub async fn settle(n: usize) {
 	for _ in 0..n {
 		tokio::task::yield_now().await;
+		observe();
+	}
+}
+
+thread_local! {
+	/// the front-end observer of the scenario that is running on this thread (see `observe`)
+	static OBSERVER: std::cell::RefCell<Option<(Arc<Client>, Tracer)>> = const { std::cell::RefCell::new(None) };
+}
+/// Install (Some) or remove (None) the observer.  The driver future is itself a front-end caller: whenever it gets a turn it
+/// looks at `is_connected()`, and the first time the connection is reported gone it asks `on_disconnect()` for the reason at
+/// once - the caller "that notices the closed channel first".  On a runtime that polls the driver after every task
+/// (event_interval 1) this lands between any two steps of the background tasks.
+pub fn set_observer(o: Option<(Arc<Client>, Tracer)>) {
+	OBSERVER.with(|c| *c.borrow_mut() = o);
+}
+pub fn observe() {
+	let taken = OBSERVER.with(|c| {
+		let gone = c.borrow().as_ref().map(|(cl, _)| !cl.is_connected()).unwrap_or(false);
+		if gone { c.borrow_mut().take() } else { None }
+	});
+	if let Some((cl, tracer)) = taken {
+		use futures_util::FutureExt;
+		tracer.ev(json!({"ev": "Connected", "b": false}));
+		match cl.on_disconnect().now_or_never() {
+			Some(e) => tracer.ev(json!({"ev": "OnDisconnect", "res": err_class(&e)})),
+			None => tracer.ev(json!({"ev": "Timeout", "what": "on_disconnect not ready although the connection is reported gone"})),
+		}
 	}
 }
 
